@@ -133,6 +133,7 @@ def run_case(acc, c: dict, monitors: List[Callable], nontrivial: Optional[Callab
         # which debug nodes are pulled into a sub-graph run is not specified; once pulled in they take part like any node
         from tawazi import cfg as _cfg
         _cfg.RUN_DEBUG_NODES = True
+        H.arm_watchdog(10.0)
         try:
             d0, _ = build_gprog(prog)
             ids0 = prog.ids()
@@ -142,7 +143,20 @@ def run_case(acc, c: dict, monitors: List[Callable], nontrivial: Optional[Callab
                     kw0[name] = [ids0[i] for i in selection[key]]
             pulled = {ids0.index(x) for x in d0.executor(**kw0).graph.nodes if x in ids0 and prog.nodes[ids0.index(x)].debug}
             sel = set(sel) | pulled
+        except H.HangDetected:
+            H.disarm_watchdog()
+            from .monitors import V as _V
+            if acc.check_id == "C09":
+                acc.violation(_V("hang", f"constructing executor({kw0}) with RUN_DEBUG_NODES on does not terminate"), c, (), None, prog.source())
+            acc.cases += 1
+            acc.evaluations += 1
+
+            class _R:
+                outcome, forced = "hang", 0
+            acc.stall(_R())
+            return 0
         finally:
+            H.disarm_watchdog()
             _cfg.RUN_DEBUG_NODES = False
     has_setup = any(nd.setup for nd in prog.nodes)
     rebuild_each = has_setup or warm > 0
